@@ -300,6 +300,76 @@ def rkc (checkSafe : Bool) (ws : List String) : Option String := do
     | _ => none
   | _ => none
 
+/-! ### op `rkq`: concurrent first uses of one statement (RoutingCache.Conc), a conducted schedule -/
+
+abbrev CEv := RoutingCache.Conc.Ev Marshal.GoVal
+
+def pCEv (ws : List String) : Option CEv :=
+  match ws with
+  | ["ok"] => some .ansOk
+  | ["fail"] => some .ansFail
+  | "go" :: g :: n :: r => do
+      let g ← g.toNat?
+      let n ← n.toNat?
+      let (vs, rest) ← pVals n r
+      if rest.isEmpty then some (.go g vs) else none
+  | _ => none
+
+def showCOut : RoutingCache.Conc.COut → String
+  | .errPrepare => "err:prepare"
+  | .res r => showKey true "ks" "t0" r
+
+def showCAns (l : List (Nat × RoutingCache.Conc.COut)) : String :=
+  if l.isEmpty then "-" else " , ".intercalate (l.map (fun p => "g" ++ toString p.1 ++ "=" ++ showCOut p.2))
+
+/-- rkq <proto> <stmt> / go <g> <nvals> {| V}… / ok / fail …: after every event the goroutines that returned -/
+def rkq (ws : List String) : Option String := do
+  match ws with
+  | p :: r0 =>
+    let p ← p.toNat?
+    let (st, r1) ← pStmt "t0" r0
+    match r1 with
+    | "/" :: r2 =>
+      let evs ← (splitSteps r2).mapM pCEv
+      if RoutingCache.crashes st then some "malformed-prepare"
+      else some (" ; ".intercalate ((RoutingCache.Conc.Spec.run (encOf p) st (false, []) evs).map showCAns))
+    | _ => none
+  | _ => none
+
+/-! ### op `rksz`: routing keys of components of given SIZES (boundaries of the [short] length) -/
+
+/-- byte `i` of a generated component: `(fill + i*step) mod 256` -/
+def genBytes (n fill step : Nat) : List UInt8 :=
+  (List.range n).map (fun i => UInt8.ofNat ((fill + i * step) % 256))
+
+/-- a linear fingerprint of a long key (every byte and its position count): `h ← (h * 1000003 + b) mod 2^32` -/
+def polySum (bs : List UInt8) : Nat := bs.foldl (fun h b => (h * 1000003 + b.toNat) % 4294967296) 0
+
+/-- `<b|s><len>.<fill hex>.<step>` -/
+def pSz (w : String) : Option (List UInt8) :=
+  match (w.drop 1).toString.splitOn "." with
+  | [n, f, st] => do
+      let n ← n.toNat?
+      let f ← parseHex f
+      let st ← st.toNat?
+      match f with
+      | [b] => if n ≤ 200000 then some (genBytes n b.toNat st) else none
+      | _ => none
+  | _ => none
+
+/-- rksz <c|q|b> <comp>…: the outcome kind and the key (length, the fingerprint `polySum` of all its bytes, first bytes) of
+    the components in partition-key order, through createRoutingKey / Query.GetRoutingKey / Batch.GetRoutingKey.
+    `rksz` (spec-backed): every component ≤ 65535 bytes; `rkszx`: larger ones too (recorded limitation). -/
+def rksz (strict : Bool) (ws : List String) : Option String :=
+  match ws with
+  | _ :: c :: r => do
+      let cs ← (c :: r).mapM pSz
+      if strict && cs.any (fun c => decide (c.length > 65535)) then some "out-of-range"
+      else
+        let key := if strict then Token.Spec.routingKey cs else Token.routingKey cs
+        some ("key " ++ toString key.length ++ " " ++ toString (polySum key) ++ " " ++ toHex (key.take 4))
+  | _ => none
+
 /-- a canonical decimal int64 token string -/
 def canonInt (s : String) : Option Int :=
   match s.toInt? with
@@ -404,6 +474,9 @@ def stepU (ws : List String) : String :=
       | _, _ => "bad-op"
   | "rkm" :: r => (rkm r).getD "bad-op"
   | "rkmx" :: r => (rkm r).getD "bad-op"
+  | "rkq" :: r => (rkq r).getD "bad-op"
+  | "rksz" :: r => (rksz true r).getD "bad-op"
+  | "rkszx" :: r => (rksz false r).getD "bad-op"
   | "rkc" :: r => (rkc true r).getD "bad-op"
   | "rkcx" :: r => (rkc false r).getD "bad-op"
   | "rkn" :: r => (rkn r).getD "bad-op"
